@@ -112,8 +112,30 @@ def _held_byte_typestate(ctx, rep):
            'self._buf = self._buf[num:]' in st_ and any('out.append(self._buf[:num])' in x for x in st_), repr(st_), ctx.where(fl))
 
 
+def _pieces_and_clusters(ctx, rep):
+    mk = ctx.fn(CP + ':Converter._mark')
+    fl = ctx.flow(mk)
+    rets = [r for r in own_nodes(mk) if isinstance(r, ast.Return)]
+    fast = [r for r in rets if norm(r.value) == 'list(iterchar(s))']
+    rep.ob('stream.stateless-only-without-dbcs', 'Converter._mark takes the stateless shortcut only for single-byte codepages',
+           len(fast) == 1 and isinstance(fast[0]._parent, ast.If) and norm(fast[0]._parent.test) == 'not self._dbcs',
+           'the shortcut also covers an empty chunk: converting in pieces and ending with an empty flushing call loses the held bytes', ctx.where(mk))
+    fls = [n for n in own_nodes(mk) if isinstance(n, ast.If) and norm(n.test) == 'flush']
+    rep.ob('stream.flush-whenever-asked', 'with flush=True the held bytes are always appended', len(fls) == 1 and 'self._flush()' in norm(fls[0].body[0]), '', ctx.where(mk))
+    su = ctx.fn(CP + ':Codepage._split_unicode')
+    loops = [n for n in own_nodes(su) if isinstance(n, ast.For) and norm(n.iter) == 'self._unicode_clusters']
+    ok = len(loops) == 1
+    if ok:
+        p_ = loops[0]._parent
+        # the only condition above the cluster search is the e-ascii test of the enclosing if/else
+        ok = isinstance(p_, ast.If) and loops[0] in p_.orelse and isinstance(p_._parent, ast.While)
+    rep.ob('clusters.matched-at-every-position', '_split_unicode tries the multi-codepoint clusters at every position, whatever the remaining length', ok,
+           'the cluster search is skipped for short remainders: a two-codepoint cluster at the end of a string is split and its accent dropped', ctx.where(su))
+
+
 def check(ctx, rep):
     _held_byte_typestate(ctx, rep)
+    _pieces_and_clusters(ctx, rep)
     ini = ctx.fn(CP + ':Codepage.__init__')
     # table keys and looked-up text are brought to the same Unicode normal form: the lookup side normalises
     # every input string, so every table entry (of any length) must be normalised the same way
@@ -193,6 +215,9 @@ def variants(ctx):
         return lambda tree: f(mu.find_def(tree, f_name))
 
     return [
+        Va('empty-flushing-chunk-ignored', 'break', CP,
+           in_fn('Converter._mark', lambda fn: mu.replace_expr(fn, lambda n: isinstance(n, ast.UnaryOp) and norm(n) == 'not self._dbcs', 'not self._dbcs or not s', count=1)), expect='stream.stateless'),
+        Va('cluster-search-needs-three-codepoints', 'break', CP, in_fn('Codepage._split_unicode', _guard_clusters), expect='clusters.matched'),
         Va('lead-byte-not-flushed-before-plain-byte', 'break', CP, in_fn('Converter._process_nobox', _flush_only_for_lead), expect='stream.held-byte'),
         Va('only-multi-codepoint-entries-normalised', 'break', CP, in_fn('Codepage.__init__', _conditional_normalise), expect='normal-form'),
         Va('inverse-built-from-argument', 'break', CP,
@@ -257,3 +282,15 @@ def _flush_only_for_lead(fn):
         return False
     lead[0].body[0:0] = fl
     return True
+
+
+def _guard_clusters(fn):
+    for n in ast.walk(fn):
+        for fld in ('body', 'orelse'):
+            b = getattr(n, fld, None)
+            if isinstance(b, list):
+                for i, st in enumerate(b):
+                    if isinstance(st, ast.For) and norm(st.iter) == 'self._unicode_clusters':
+                        b[i] = ast.If(test=ast.parse('len(ucs) > 2', mode='eval').body, body=[st], orelse=[])
+                        return True
+    return False
